@@ -282,3 +282,28 @@ func (e *execState) checkQueries(bo *blockObs) {
 		}
 	}
 }
+
+// queryNoise: between FinalizeBlock and Commit the query path must answer from the last committed
+// state (the block being executed is not visible yet).
+func (e *execState) queryNoise(bo *blockObs, prev *Snap) {
+	n := e.node
+	for _, a := range prev.Auctions {
+		var resp types.QueryGetAuctionResponse
+		code, log, err := n.grpcQuery("GetAuction", &types.QueryGetAuctionRequest{AuctionId: a.ID}, &resp)
+		if err != nil || code != 0 || resp.Auction == nil {
+			e.res.addV("C16", "query.mid_block", "error", fmt.Sprintf("GetAuction(%d) between FinalizeBlock and Commit failed: code=%d %s %v", a.ID, code, log, err), bo.Idx, -1)
+			continue
+		}
+		au, err := types.UnpackAuction(resp.Auction)
+		if err != nil {
+			continue
+		}
+		if int(au.GetStatus()) != a.Status || len(au.GetEndTimes()) != len(a.EndTimes) {
+			e.res.addV("C16", "query.mid_block", "uncommitted_state", fmt.Sprintf("GetAuction(%d) between FinalizeBlock and Commit shows status %d / %d end times; the committed state has status %d / %d end times", a.ID, int(au.GetStatus()), len(au.GetEndTimes()), a.Status, len(a.EndTimes)), bo.Idx, -1)
+		}
+	}
+	var resp types.QueryGetAuctionResponse
+	if code, _, _ := n.grpcQuery("GetAuction", &types.QueryGetAuctionRequest{AuctionId: uint64(len(prev.Auctions))}, &resp); code == 0 {
+		e.res.addV("C16", "query.mid_block", "uncommitted_state", fmt.Sprintf("auction %d created by the block being executed is visible to queries before Commit", len(prev.Auctions)), bo.Idx, -1)
+	}
+}
